@@ -15,7 +15,7 @@ LEVEL_NOTE = ("Model fidelity is checked, not proved (correspondence: all (len,k
               "absence of deadlock in nested regions, are properties of rayon (trusted; observed under pools of 1–16 threads with "
               "a time cap). Floating-point re-association error of parallel sums and the drift of re-derived 1-D endpoints are "
               "measured against the statement's tolerances (1e-12, 1e-14), not proved.")
-OPS = {"split1", "split2", "tree1", "tree2", "steps_lens", "steps2d_lens"}
+OPS = {"split1", "split2", "tree1", "tree2", "steps_lens", "steps2d_lens", "part2_prog"}
 TOL = {"split1": ("ulp", 2), "tree1": ("ulp", 2)}
 DEFAULT_TOL = ("exact",)
 RULE = ("family par/split: single splits of both producers for every len ≤ 24 (quick) / 64 (thorough) × every k ∈ 0..len+1; all proper "
@@ -28,12 +28,16 @@ RULE = ("family par/split: single splits of both producers for every len ≤ 24 
         "4..24(64), rayon adaptors (skip/take/rev/enumerate/zip/chain/interleave/step_by/chunks/with_min_len/with_max_len …) through both "
         "producers on counts 0,1,2,… with ascending/descending/equal endpoints, every Integrator variant inside range evaluation and "
         "count rates, exact-size contract after every pull — each under EVERY pool size 1..16 against the 1-thread result at 1e-12 / "
-        "bit-wise, and the 1-thread batch once more at the end (history independence)")
+        "bit-wise, and the 1-thread batch once more at the end (history independence). family iterprog: programs of std Iterator / "
+        "DoubleEndedIterator / ExactSizeIterator calls (nth, nth_back, skip, step_by, take, rev, len, count, last, fold, zip, peekable … "
+        "≤ 12 calls, ≤ 2 nested adaptors on the concrete type) on Iterator2D::new_partition(g, lo, hi) for every kind of window and on "
+        "Producer::into_iter of split pieces of both producers, against the same program on Vec::into_iter() over the piece's points "
+        "(what rayon's step_by/skip/take/rev/zip adaptors do to a split-off piece); primitive programs against the Lean state machine (K part2_prog)")
 RESIDUAL = ("(a) floating-point re-association error of parallel sums and rounding drift of re-derived 1-D sub-range endpoints: "
             "measured (≤ 1e-12 / ≤ 1e-14), exact-arithmetic invariance is proved; (b) deadlock freedom of nested regions is a "
             "property of rayon's work-stealing scheduler: observed under a time cap only; (c) which split trees rayon requests "
             "is not modelled — the theorems hold for every tree the Producer contract allows")
-CHECKER_MODULES = ["Spdc.Real.GridLemmas"]
+CHECKER_MODULES = ["Spdc.Real.GridLemmas", "Spdc.Real.GridProgLemmas"]
 TRUSTED_EXTRA = ["rayon 1.12 bridge/scheduler: requests only split indices 0 ≤ k ≤ len (Producer contract) and joins without deadlock"]
 ASSUMPTIONS = [
     "1-D tolerance '1e-14 relative' is read relative to the range scale max(|start|,|end|) (a point of the range may be exactly 0)",
@@ -48,4 +52,5 @@ ASSUMPTIONS = [
 
 def families(tier, seed):
     n = 160 if tier == "quick" else 1200
-    return [("par", seed, n, ["split"]), ("par", seed, n, ["pools"]), ("par", seed, n, ["sweep"])]
+    m = 150 if tier == "quick" else 3000
+    return [("par", seed, n, ["split"]), ("par", seed, n, ["pools"]), ("par", seed, n, ["sweep"]), ("iterprog", seed, m, [])]
